@@ -3,9 +3,11 @@ package c17
 
 import (
 	"fmt"
+	"regexp"
 	"strings"
 	"testing"
 
+	"github.com/jsightapi/jsight-schema-core/notations/jschema"
 	"github.com/jsightapi/jsight-schema-core/rules/enum"
 	"pgregory.net/rapid"
 
@@ -21,6 +23,29 @@ func TestMain(m *testing.M) { ev.Main(m, "C17") }
 type Case struct {
 	Text     string   `json:"text"`
 	Examples []string `json:"examples,omitempty"` // example literals tested against the rule
+	Template int      `json:"template,omitempty"` // index into templates: where and beside what the enum rule is used
+}
+
+// templates: V = the example literal, E = `@e` or the inline list. The rules that may stand beside
+// `enum` (nullable, optional, const, type "enum") before and after it, two uses in one schema,
+// nested positions, the rule-set form inside `or`.
+var templates = []string{
+	`V // {enum: E}`,
+	`V // {enum: E, nullable: true}`,
+	`V // {nullable: false, enum: E}`,
+	`V // {type: "enum", enum: E}`,
+	`V // {enum: E, type: "enum"}`,
+	`V // {enum: E, const: false}`,
+	"{\n  \"k\": V // {enum: E, optional: true}\n}",
+	"{\n  \"k\": V // {optional: false, enum: E, nullable: true}\n}",
+	"[\n  V, // {enum: E}\n  V // {enum: E}\n]",
+	"{\n  \"a\": V, // {enum: E}\n  \"b\": [\n    V // {enum: E, nullable: true}\n  ]\n}",
+	`V // {or: [{type: "enum", enum: E}, {type: "boolean"}]}`,
+	`V /* {enum: E} */`,
+}
+
+func fill(tpl, v, e string) string {
+	return strings.ReplaceAll(strings.ReplaceAll(tpl, "V", v), "E", e)
 }
 
 func exampleItem(lit string) (enumrule.Item, bool) {
@@ -107,8 +132,9 @@ func oracle(c Case) *ev.Verdict {
 		if !ok {
 			continue
 		}
-		named := sut.Observe(sut.Project{Root: ex + " // {enum: @e}", Rules: []sut.Named{{Name: "@e", Text: c.Text}}})
-		inl := sut.Observe(sut.Project{Root: ex + " // {enum: " + inline + "}"})
+		tpl := templates[c.Template%len(templates)]
+		named := sut.Observe(sut.Project{Root: fill(tpl, ex, "@e"), Rules: []sut.Named{{Name: "@e", Text: c.Text}}})
+		inl := sut.Observe(sut.Project{Root: fill(tpl, ex, inline)})
 		if len(named.Escapes)+len(inl.Escapes) > 0 {
 			es := append(named.Escapes, inl.Escapes...)
 			return ev.V("panic:schema:"+es[0].Frame, "schema with enum %q and example %s panicked: %s", c.Text, ex, es[0].Value)
@@ -119,8 +145,50 @@ func oracle(c Case) *ev.Verdict {
 		if sut.CodeOf(named.Check) != sut.CodeOf(inl.Check) {
 			return ev.V("named-vs-inline:verdict", "example %s: `enum: @e` with @e = %q gives %v, the inline list %s gives %v", ex, c.Text, named.Check, inline, inl.Check)
 		}
+		if named.Check == nil {
+			ev.Class("all", fmt.Sprintf("schema accepted in both forms under template %d", c.Template%len(templates)))
+		}
 		if named.Check == nil && named.Example != inl.Example {
 			return ev.V("named-vs-inline:example", "example %s with rule %q: Example() %q vs inline %q", ex, c.Text, named.Example, inl.Example)
+		}
+		// the rule object that answered the questions above, used by two schemas one after the other
+		for round := 0; round < 2; round++ {
+			root := jschema.New("root", fill(tpl, ex, "@e"))
+			var addErr, chkErr *sut.ErrInfo
+			var example []byte
+			if esc := sut.Trap("shared-rule", func() {
+				addErr = sut.Describe(root.AddRule("@e", e))
+				chkErr = sut.Describe(root.Check())
+				if chkErr == nil {
+					example, _ = root.Example()
+				}
+			}); esc != nil {
+				return ev.V("panic:shared-rule:"+esc.Frame, "schema %d using the rule object of %q panicked: %s", round+1, c.Text, esc.Value)
+			}
+			if addErr != nil || sut.CodeOf(chkErr) != sut.CodeOf(inl.Check) || (chkErr == nil && string(example) != inl.Example) {
+				return ev.V("shared-rule:differs", "schema %d that uses the same rule object (rule %q, example %s, template %d): AddRule %v, Check %v, Example %q; the inline list gives %v, %q", round+1, c.Text, ex, c.Template, addErr, chkErr, example, inl.Check, inl.Example)
+			}
+		}
+		var after []string
+		if esc := sut.Trap("Enum.Values", func() {
+			v3, _ := e.Values()
+			for _, v := range v3 {
+				if string(v.Type) != "comment" {
+					after = append(after, v.Value.String()+":"+string(v.Type))
+				}
+			}
+			a3, _ := e.GetAST()
+			if len(a3.Children) != astKids {
+				after = append(after, fmt.Sprintf("AST children %d (was %d)", len(a3.Children), astKids))
+			}
+		}); esc != nil {
+			return ev.V("panic:"+esc.Frame, "Values() of enum rule %q after use panicked: %s", c.Text, esc.Value)
+		}
+		if strings.Join(after, "|") != strings.Join(got, "|") {
+			return ev.V("values:changed-by-use", "Values()/GetAST() of %q after schemas used the rule: %v, before: %v", c.Text, after, got)
+		}
+		if c.Template%len(templates) != 0 {
+			continue
 		}
 		// membership
 		member, ambiguous := false, false
@@ -166,6 +234,8 @@ func nontrivial(c Case) bool {
 	return !ref.Valid
 }
 
+var interline = regexp.MustCompile(`\n[ \t]*(//[^\n]*|/\*[^*]*\*/)[ \t\r]*\n[ \t]*["0-9a-z-]`)
+
 var pool = []string{`"a"`, `"A"`, `"\u0041"`, `"a.b"`, `"1"`, `"1.5"`, `"true"`, `"null"`, `"1e5"`, `"-"`, `""`, `1`, `1.0`, `1.00`, `-0`, `0`, `2.5`, `true`, `false`, `null`, `"x y"`, `"q\"r"`, `"a\/b"`, `"a/b"`, `"é"`, `"[1]"`, `"//"`}
 var probes = []string{`"zz"`, `7`, `"a"`, `"A"`, `1`, `1.0`, `true`, `null`, `"1"`, `0`}
 
@@ -197,6 +267,9 @@ func genCase(t *rapid.T) Case {
 			c := ","
 			if i == len(items)-1 {
 				c = ""
+			}
+			if rapid.IntRange(0, 2).Draw(t, "interline") == 0 {
+				ls = append(ls, rapid.SampledFrom([]string{"  // between the values", "// a line of its own", "  /* block */", "  /* two\n lines */"}).Draw(t, "ic"))
 			}
 			ls = append(ls, fmt.Sprintf("  %s%s%s// item %d", it, c, pad(), i))
 		}
@@ -240,7 +313,7 @@ func genCase(t *rapid.T) Case {
 	}
 	exs := append([]string{}, items...)
 	exs = append(exs, rapid.SliceOfN(rapid.SampledFrom(probes), 1, 3).Draw(t, "probes")...)
-	return Case{Text: text, Examples: exs}
+	return Case{Text: text, Examples: exs, Template: rapid.IntRange(0, len(templates)-1).Draw(t, "template")}
 }
 
 func judged(c Case) *ev.Verdict {
@@ -256,6 +329,10 @@ func judged(c Case) *ev.Verdict {
 		ev.Class("lists", "unsettled")
 	case r.Valid:
 		ev.Class("lists", "valid")
+		ev.Class("lists", "template: "+strings.ReplaceAll(templates[c.Template%len(templates)], "\n", " "))
+		if interline.MatchString(c.Text) {
+			ev.Class("lists", "valid with a comment on a line of its own before a value")
+		}
 	default:
 		ev.Class("lists", "invalid:"+r.Why)
 	}
@@ -281,6 +358,7 @@ func TestPropTokens(t *testing.T) {
 	gen.Shortlex(alpha, maxLen, ev.Mine, func(b []byte, _ []int) {
 		c := Case{Text: string(b), Examples: []string{`"a"`, `"A"`, "1", "1.0", "null"}}
 		n++
+		c.Template = int(n % int64(len(templates)))
 		if nontrivial(c) {
 			nt++
 			if ev.WantSample("tokens") && len(b) > 8 {
